@@ -31,6 +31,7 @@ pub struct Norm {
     pub opaque_macros: Vec<String>,
     pub rename_calls: Vec<(String, String)>,
     pub str_params: Vec<String>,
+    pub string_exprs: Vec<String>,
     pub into_vec: Vec<String>,
     pub iter_on: Vec<String>,
     pub iter_vec: Vec<String>,
@@ -368,6 +369,7 @@ impl Norm {
                 .map(|o| o.iter().map(|(k, v)| (k.clone(), v.as_str().unwrap().to_string())).collect())
                 .unwrap_or_default(),
             str_params: strs("str_params"),
+            string_exprs: strs("string_exprs"),
             into_vec: strs("into_vec"),
             iter_on: strs("iter_on"),
             iter_vec: strs("iter_vec"),
@@ -868,6 +870,31 @@ impl VisitMut for Norm {
                         });
                         *e = ne;
                         self.log("N8k-find-to-loop", sp);
+                    }
+                }
+            }
+        }
+        // N8m (pre-order, as N8): ITER.find_map(|p| B) => the first `Some` that B yields over the items of ITER, as a loop with `break` (definition)
+        if let Expr::MethodCall(mc) = e {
+            if mc.method == "find_map" && mc.args.len() == 1 {
+                if let Expr::Closure(c) = &mc.args[0] {
+                    if c.inputs.len() == 1 && !body_has_return(&c.body) && matches!(&c.inputs[0], Pat::Ident(_)) {
+                        let sp = mc.method.span();
+                        let pat = c.inputs[0].clone();
+                        let body = &c.body;
+                        let recv = &mc.receiver;
+                        let acc = self.fresh("found");
+                        let y = self.fresh("y");
+                        let ne: Expr = parse_quote!({
+                            let mut #acc = None;
+                            for #pat in #recv {
+                                let #y = #body;
+                                if #y.is_some() { #acc = #y; break; }
+                            }
+                            #acc
+                        });
+                        *e = ne;
+                        self.log("N8m-find_map-to-loop", sp);
                     }
                 }
             }
@@ -1459,6 +1486,15 @@ impl VisitMut for Norm {
                                 let recv = &mc.receiver;
                                 *e = parse_quote!(hq_str_to_string(#recv));
                                 self.log("N15b-str-to_string", sp);
+                            }
+                        } else if mc.method == "to_string" {
+                            // N15d (option string_exprs=EXPR,..: expressions declared to be of type String): `S.to_string()` on a String is `S.clone()`
+                            // (std specialises ToString for String to a copy of the string)
+                            let recv = &mc.receiver;
+                            let txt = quote::quote!(#recv).to_string().replace(' ', "");
+                            if self.string_exprs.iter().any(|x| x.replace(' ', "") == txt) {
+                                *e = parse_quote!(#recv.clone());
+                                self.log("N15d-string-to_string-is-clone", sp);
                             }
                         }
                     }
